@@ -257,9 +257,76 @@ type c13Case struct {
 	Dicts   [][]byte
 }
 
+// c13genResDeep draws a multi-level index whose leaves use shared
+// dictionaries: several hundred zlib chunks that each compress to more than 256 bytes
+// (below that the codec does not try a dictionary) from a payload made of the
+// dictionaries' phrases.
+func c13genResDeep(r *rand.Rand, minChunks, span int) *c13Case {
+	var c c13Cfg
+	c.Codec = "zlib"
+	c.DChunk = []uint64{400, 512, 640}[r.Intn(3)]
+	c.NRes = 1 + r.Intn(2)
+	if minChunks > 500 {
+		c.NRes = 2
+	}
+	if r.Intn(2) == 0 {
+		c.CPage = c13pick(r, c13pages)
+	}
+	c.AtStart = r.Intn(2) == 0
+	c.Temp = "nil"
+	if c.AtStart {
+		c.Temp = []string{"rawbuf", "lbuf", "lseek", "rawfile"}[r.Intn(4)]
+	}
+	c.Sink = "log"
+	c.RSKind = []string{"readerat", "readseeker"}[r.Intn(2)]
+	c.PClass = "phrase"
+	n := (minChunks+r.Intn(span))*int(c.DChunk) + r.Intn(int(c.DChunk))
+	c.PLen = n
+	var pools [][][]byte
+	var dicts [][]byte
+	for i := 0; i < c.NRes; i++ {
+		var pool [][]byte
+		var d []byte
+		for j := 0; j < 24; j++ {
+			ph := make([]byte, 8+r.Intn(32))
+			for k := range ph {
+				ph[k] = byte(r.Intn(256))
+			}
+			pool = append(pool, ph)
+			d = append(d, ph...)
+		}
+		pools = append(pools, pool)
+		dicts = append(dicts, d)
+	}
+	payload := c13payload(r, "phrase", n, pools[:1])
+	if c.NRes == 2 {
+		// The second dictionary serves only a few single chunks placed around the
+		// points where the index writer starts a new branch node (arity 255
+		// including resources): a resource with exactly one user in its branch.
+		dc := int(c.DChunk)
+		for _, base := range []int{253, 506} {
+			k := base + r.Intn(2)
+			if (k+1)*dc <= n {
+				copy(payload[k*dc:(k+1)*dc], c13payload(r, "phrase", dc, pools[1:]))
+			}
+		}
+	}
+	c.Part = "fixed"
+	pieces := c13partition(r, "fixed", n, []int{1000, 4096, 65536}[r.Intn(3)], false)
+	c.NWrites = len(pieces)
+	return &c13Case{Cfg: c, Payload: payload, Pieces: pieces, Dicts: dicts}
+}
+
 // c13gen draws one case. small = few chunks and few underlying calls, so that
 // an exhaustive fault sweep is cheap.
-func c13gen(r *rand.Rand, thorough, small, zstd bool) *c13Case {
+func c13gen(r *rand.Rand, thorough, small bool, force string) *c13Case {
+	switch force {
+	case "resdeep2":
+		return c13genResDeep(r, 260, 140) // two leaf-level branch nodes
+	case "resdeep3":
+		return c13genResDeep(r, 520, 100) // three
+	}
+	zstd := force == "zstd"
 	var c c13Cfg
 	// zstd at LevelSmall costs seconds of CPU per Writer (huge match-finder
 	// tables), so the caller schedules it by case index rather than by chance.
@@ -1600,16 +1667,20 @@ func C13(rc *vk.Rec) {
 			}
 			rc.Mark(ph.phase, idx)
 			r := rc.RNG(ph.phase, idx)
-			zstd := false
+			force := ""
 			switch {
-			case ph.phase == "rt" && thorough:
-				zstd = idx%20 == 3
-			case ph.phase == "rt":
-				zstd = idx%30 == 3
-			case thorough:
-				zstd = idx%50 == 49
+			case ph.phase == "rt" && thorough && idx%20 == 3, ph.phase == "rt" && !thorough && idx%30 == 3,
+				ph.phase == "flt" && thorough && idx%50 == 49:
+				force = "zstd"
+			case ph.phase == "rt" && idx%60 == 17 && !race && (thorough || rc.Shard%4 == 1):
+				// costs seconds (a fresh zlib.Writer per dictionary trial):
+				// 4 cases in the quick tier, 1 in 60 in the thorough tier
+				force = "resdeep2"
+				if (thorough && idx%120 == 17) || (!thorough && rc.Shard%8 == 1) {
+					force = "resdeep3"
+				}
 			}
-			ck := &c13Checker{rc: rc, phase: ph.phase, idx: idx, cs: c13gen(r, thorough, ph.phase == "flt", zstd)}
+			ck := &c13Checker{rc: rc, phase: ph.phase, idx: idx, cs: c13gen(r, thorough, ph.phase == "flt", force)}
 			cls, out := ck.faultFree()
 			if cls != "" && !race && c13sweepOK(&ck.cs.Cfg, out, len(ck.cs.Pieces), thorough, ph.phase, idx) {
 				ck.sweep(cls)
